@@ -990,6 +990,22 @@ theorem ex_universe : UniverseOk exEnv 0 .d2020 {} where
 example : ∃ rs, Go.resolve exEnv 2 0 "" = .ok rs :=
   resolve_complete exEnv 0 .d2020 "" {} 2 (by decide) rfl exEnv_fresh (by decide +kernel) ex_universe
 
+/-! Why `Doc.RefGood` asks a reference that leaves its document for a KEY of the Loader table (or a name of the top
+    document), not for any name of a Loader document: a Loader document can be reached under the URI its root `$id`
+    gives it only once it has been loaded under its retrieval URI (resolver.loaded is filled as documents arrive), so
+    with the same universe success depends on the order of the references.  (Replayed on the Go package: same outcomes.) -/
+
+def alStore : Store := #[
+  { id := "http://a/root.json", allOf := some [1, 2] },
+  { ref := "http://a/x.json" },
+  { ref := "http://canon/x" },
+  { id := "http://canon/x" } ]
+def alEnv : Env := { st := alStore, reOk := fun _ => true, loader := some [("http://a/x.json", .doc 3)] }
+def alEnv' : Env := { alEnv with st := (alStore.set! 1 { ref := "http://canon/x" }).set! 2 { ref := "http://a/x.json" } }
+
+example : ((Go.resolve alEnv 2 0 "").bind fun rs => .ok (rs.log, rs.infos.map fun e => (e.1, e.2.resolvedRef))) =
+    .ok (["http://a/x.json"], [(0, none), (1, some 3), (2, some 3), (3, none)]) := by decide +kernel
+example : (Go.resolve alEnv' 2 0 "").verdict = some false := by decide +kernel
 end completeness_examples
 
 
